@@ -9,6 +9,7 @@ EXPLANATION = (
     "the container add placed the event in; (R4) add panics iff time < bound; (R5) fetch_next's skeleton (zero container "
     "first; bound := front time of the bucket popped, before the pop); (R6) handles are linear (no Clone/Copy, cancel by value; compile-fail witnesses in the thorough tier); "
     "(R7) the timestamp given to add is stored and returned unconverted (same type in the node, no casts). "
+    "(R5 also: the window fields are not advanced again after the pop, and the bound written is the popped node's own time.) "
     "Decides these necessary conditions only; not the time order / exactly-once behaviour over operation histories.")
 ASSUMPTIONS = [
     "VecDeque/BinaryHeap/Vec behave as documented",
